@@ -23,6 +23,7 @@ fn engine_by_name(name: &str) -> Option<Box<dyn Engine>> {
     "res" => Some(Box::new(engines::res::ResEngine)),
     "ks" => Some(Box::new(engines::ks::KsEngine)),
     "stor" => Some(Box::new(engines::stor::StorEngine)),
+    "world" => Some(Box::new(engines::world::WorldEngine)),
     _ => None,
   }
 }
@@ -61,6 +62,22 @@ fn plan_for(property: &str) -> Option<Plan> {
       thorough_runs: 3_000_000,
       params_quick: &[("max_ops", 12)],
       params_thorough: &[("max_ops", 12)],
+    },
+    "C06" => Plan {
+      engine: "world",
+      level: "exploration",
+      quick_runs: 6_000,
+      thorough_runs: 600_000,
+      params_quick: &[("max_batch", 1000)],
+      params_thorough: &[("max_batch", 100000)],
+    },
+    "C14" => Plan {
+      engine: "world",
+      level: "exploration",
+      quick_runs: 20_000,
+      thorough_runs: 2_000_000,
+      params_quick: &[],
+      params_thorough: &[],
     },
     "C15" => Plan {
       engine: "ks",
